@@ -949,13 +949,7 @@ impl<'a> Machine<'a> {
                     self.feat("loop-iterated");
                     match self.run_block(body, path, "b") {
                         Ok(()) => {}
-                        Err(stop) => {
-                            if matches!(stop, Stop::Goto(_) | Stop::ExitProc) {
-                                // known finding: the implementation skips this loop's PopRegisters
-                                self.triggers.insert("jump-out-of-for-leaves-register-frame");
-                            }
-                            return Err(stop);
-                        }
+                        Err(stop) => return Err(stop),
                     }
                     // increment: counter + step, converted to the counter's type
                     let cur = self.load(var, path)?;
